@@ -183,6 +183,81 @@ def srcDecisionCore (kind : Kind) (symlink setuid setgid sticky multi : Bool) (f
 def srcDecision (s : Src) (f : Flags) : SrcDecision :=
   srcDecisionCore s.kind s.symlink s.setuid s.setgid s.sticky (decide (s.nlink > 1)) f
 
+/-! ## args.c: how the three flags (and mode / format) come about -/
+
+/-- What `args_parse()` derives from `argv[0]` (substring tests on the base name, in this order). -/
+inductive Prog where
+  | xz | xzcat | unxz | lzcat | unlzma | lzma | other
+  deriving DecidableEq, Repr, Inhabited
+
+def Prog.ofCode : Nat → Prog
+  | 0 => .xz | 1 => .xzcat | 2 => .unxz | 3 => .lzcat | 4 => .unlzma | 5 => .lzma | _ => .other
+
+/-- The options that matter for C19; the same parser (`parse_real`) handles XZ_DEFAULTS, XZ_OPT and the command line. -/
+inductive Opt where
+  | stdout        -- `-c`, `--stdout`, `--to-stdout`
+  | keep          -- `-k`
+  | force         -- `-f`
+  | decompress    -- `-d`
+  | compress      -- `-z`
+  | test          -- `-t`
+  deriving DecidableEq, Repr, Inhabited
+
+/-- option index used in Gen `argsRows`: 0 nothing, 1 -c, 2 -k, 3 -f, 4 -d, 5 -z, 6 -t, 7 --stdout -/
+def Opt.ofCode : Nat → List Opt
+  | 1 => [.stdout] | 2 => [.keep] | 3 => [.force] | 4 => [.decompress] | 5 => [.compress] | 6 => [.test] | 7 => [.stdout]
+  | _ => []
+
+inductive RunMode where
+  | compress | decompress | test
+  deriving DecidableEq, Repr, Inhabited
+
+def RunMode.toNat : RunMode → Nat
+  | .compress => 0 | .decompress => 1 | .test => 2
+
+structure Settings where
+  mode : RunMode
+  flags : Flags
+  fmt : Format
+  deriving DecidableEq, Repr, Inhabited
+
+/-- the `argv[0]` block at the top of `args_parse()`; `xzcat`/`lzcat` select stdout WITHOUT going through `case 'c'` -/
+def progDefaults : Prog → Settings
+  | .xzcat => ⟨.decompress, ⟨true, false, false⟩, .auto⟩
+  | .unxz => ⟨.decompress, ⟨false, false, false⟩, .auto⟩
+  | .lzcat => ⟨.decompress, ⟨true, false, false⟩, .lzma⟩
+  | .unlzma => ⟨.decompress, ⟨false, false, false⟩, .lzma⟩
+  | .lzma => ⟨.compress, ⟨false, false, false⟩, .lzma⟩
+  | _ => ⟨.compress, ⟨false, false, false⟩, .auto⟩
+
+/-- one `case` of the `getopt_long` loop in `parse_real()` -/
+def applyOpt (s : Settings) : Opt → Settings
+  | .stdout => { s with flags := { s.flags with stdout := true } }
+  | .keep => { s with flags := { s.flags with keep := true } }
+  | .force => { s with flags := { s.flags with force := true } }
+  | .decompress => { s with mode := .decompress }
+  | .compress => { s with mode := .compress }
+  | .test => { s with mode := .test }
+
+/-- the fix-ups after parsing (args.c:828-846): stdout or test ⇒ keep_original := true, stdout := true;
+    compressing with format auto ⇒ format xz -/
+def finalizeSettings (s : Settings) : Settings :=
+  let fl : Flags := if s.flags.stdout || s.mode == .test then { s.flags with keep := true, stdout := true } else s.flags
+  { s with flags := fl, fmt := if s.mode == .compress && s.fmt == .auto then .xz else s.fmt }
+
+/-- `args_parse()`: program name, then XZ_DEFAULTS, then XZ_OPT, then the command line. -/
+def parseArgs (p : Prog) (envDefaults envOpt cmdline : List Opt) : Settings :=
+  finalizeSettings ((envDefaults ++ envOpt ++ cmdline).foldl applyOpt (progDefaults p))
+
+/-- result code of Gen `argsRows` -/
+def Settings.code (s : Settings) : Nat :=
+  s.mode.toNat + 4 * s.flags.stdout.toNat + 8 * s.flags.keep.toNat + 16 * s.flags.force.toNat + 32 * s.fmt.toNat
+
+/-- environment variants of Gen `argsRows`: (XZ_DEFAULTS, XZ_OPT) -/
+def envVariant : Nat → List Opt × List Opt
+  | 1 => ([.stdout], []) | 2 => ([], [.stdout]) | 3 => ([], [.keep]) | 4 => ([.keep], [.decompress])
+  | 5 => ([.stdout], [.compress]) | _ => ([], [])
+
 /-! ## io_open_dest_real / io_close: what happens at the target name -/
 
 /-- What already exists at the target name. -/
